@@ -694,6 +694,47 @@ package part
 //@   atcall (*Tree).Txn@1 requires @transaction-on-the-maps-own-tree $0 == addr(m.tree)
 //@   atcall (*Txn).Delete@1 requires @deletes-through-that-transaction $0 == txn
 //@   mustcall (*Txn).Delete@1 when @a-tree-backed-map-deletes-through-a-transaction m.singleton == nil && m.hasTree
+// Map transactions (C17, D6): Commit hands out a CLONE of the transaction's tree (id bump, the
+// transaction stays usable and is never given back to the tree for recycling) - or the single
+// remaining pair, or nothing; the result is never a singleton AND a tree. Set/Delete go to the
+// transaction's own part.Txn with the key's byte image.
+//@ func MapTxn.Commit returns (m)
+//@   property C17
+//@   flag nosafety
+//@   maypanic
+//@   flag assumepre=tree-representation-invariant
+//@   atcall (*Txn).Commit@* requires @never-recycles-a-transaction-that-may-still-be-used false
+//@   atcall (*Txn).CommitAndNotify@* requires @never-recycles-a-transaction-that-may-still-be-used false
+//@   mustcall (*Txn).Clone@1 when @a-map-of-two-or-more-entries-is-a-clone-of-the-transaction txn.txn.size > 1
+//@   ensures @singleton-or-tree-never-both m.singleton == nil || !m.hasTree
+//@   ensures @keeps-the-key-function m.bytesFromKeyFunc == txn.bytesFromKeyFunc
+//@ func MapTxn.Set
+//@   property C17
+//@   flag nosafety
+//@   maypanic
+//@   flag dyncall.bytesFromKeyFunc=pure
+//@   flag assumepre=tree-representation-invariant
+//@   atcall (*Txn).Insert@1 requires @into-the-transactions-own-tree-with-the-callers-pair $0 == txn.txn && $2.Key == key && $2.Value == value
+//@   mustcall (*Txn).Insert@1 when @always true
+//@ func MapTxn.Delete
+//@   property C17
+//@   flag nosafety
+//@   maypanic
+//@   flag dyncall.bytesFromKeyFunc=pure
+//@   flag assumepre=tree-representation-invariant
+//@   atcall (*Txn).Delete@1 requires @from-the-transactions-own-tree $0 == txn.txn
+//@   mustcall (*Txn).Delete@1 when @always true
+//@   ensureslocal @reports-whether-the-key-was-there result == hadOld
+//@ func Map.Txn
+//@   property C17
+//@   flag nosafety
+//@   maypanic
+//@   flag dyncall.bytesFromKeyFunc=pure
+//@   flag dyncall.lookupKeyType=pure
+//@   flag assumepre=tree-representation-invariant
+//@   atcall (*Txn).Insert@1 requires @a-singleton-map-starts-the-transaction-with-its-pair m.singleton != nil && $2.Key == m.singleton.Key && $2.Value == m.singleton.Value
+//@   mustcall (*Txn).Insert@1 when @a-singleton-map-starts-the-transaction-with-its-pair m.singleton != nil
+//@   mustcall (*Tree).Txn@1 when @always true
 // Set operations (C17): every write goes through a transaction opened on the receiver's OWN tree
 // (the argument's tree is only read through an iterator), and the result is what that
 // transaction committed.
